@@ -7,7 +7,7 @@ ENGINES = [
                        'reader (mc/mpd.py) + independent ISO-BMFF reader (mc/bmff.py) + synthetic media writer '
                        '(mc/synth.py); clock transition system over critical instants'},
     {'name': 'explorer', 'path': 'mc/explorer.py',
-     'serves_properties': ['C08', 'C09', 'C19', 'C20'],
+     'serves_properties': ['C08', 'C09', 'C11', 'C19', 'C20'],
      'kind_free_text': 'explicit-state BFS over operation histories of the real object (rebuild + replay), '
                        'canonical-state de-duplication, deviation-level product enumeration'},
 ]
@@ -161,5 +161,18 @@ CHECKS['C09'] = dict(
          'SegmentTimeline of the T2 manifest, with originalPublishTime/mpdId matching.',
     note='Segment and patch clauses are demanded only while availabilityStartTime is unchanged; replacement elements '
          'compared by local name.')
+
+CHECKS['C11'] = dict(
+    engine='explorer',
+    technique='bounded-exhaustive structured key/seed/URL/version product vs independent hashlib/uuid/own-AES oracle; exhaustive ClearKey request alphabet; DRM selection product through manifests',
+    design_ref='DESIGN.md §7 C11',
+    text='154 structured 16-byte patterns (all single-bit and single-byte vectors, ramps, fixture KIDs) x 14 seeds of '
+         'length 30-40: content key == independent implementation of the published key-seed algorithm, GUID order == '
+         'uuid bytes_le; PlayReady Objects for key sets of 1-3 x computed/explicit keys x 6 licence URLs x PlayReady '
+         'version x header version parse back (own PRO reader + lxml) to the same KID(s), LA_URL and AES-ECB checksum '
+         '(own AES-128); POST /clearkey for every id list of length <= 3 over {known1, known2, unknown, duplicate, '
+         'malformed, wrong length}; ContentProtection elements of 8 template/mode pairs x DRM selections match the '
+         'selection, default_KID equals the stored tenc KID and embedded pssh/pro equal what the init segment carries.',
+    note='Oracles: hashlib, uuid, mc/aes128.py (FIPS-197 self-tested), lxml, mc/bmff.py.')
 
 NOT_BUILT = {}
